@@ -12,6 +12,9 @@
 //        context node list = value of the first expression at the root, context node = its k-th member (0-based)
 // reply to eval (single line, space separated):
 //   eval … [order]  optional 6th field 0..5: order in which boolean()/num()/str()/str(events) are asked of the generic result
+//   strip <0|1>  whitespace-only text nodes are stripped (as under xsl:strip-space elements="*"); applies to later evals and `nodes`
+//   Every eval runs with the execution context's current node set to a node other than the context node (current() must
+//   still mean the context node through every overload).
 //   var <name> r <hex>  binds a result tree fragment (one text node).  Extension functions c11:echo/str/num/bool/first
 //   live in namespace urn:c11-ext (declare a prefix for it on the document element).
 //   ONE execution context and ONE object factory per document session; nothing is reset between evals.
@@ -40,6 +43,8 @@
 #include <xalanc/XPath/XObject.hpp>
 #include <xalanc/XPath/Function.hpp>
 #include <xalanc/XSLT/XResultTreeFrag.hpp>
+#include <xalanc/XalanTransformer/XalanTransformer.hpp>
+#include <xalanc/XalanDOM/XalanText.hpp>
 #include <xalanc/XPath/XObjectFactoryDefault.hpp>
 #include <xalanc/XPath/XPath.hpp>
 #include <xalanc/XPath/XPathEvaluator.hpp>
@@ -190,6 +195,12 @@ public:
     Ctx(XPathEnvSupport& e, DOMSupport& d, XObjectFactory& f) : XPathExecutionContextDefault(e, d, f), m_factory(f) {}
     std::map<std::string, Binding> m_vars;
     XObjectFactory& m_factory;
+    // `strip 1`: behave like a stylesheet with <xsl:strip-space elements="*"/>: whitespace-only text nodes are not there
+    void setStrip(bool on) { m_hasPreserveOrStripConditions = on; }
+    virtual bool shouldStripSourceNode(const XalanText& node)
+    {
+        return m_hasPreserveOrStripConditions && node.isWhitespace();
+    }
     virtual const XObjectPtr getVariable(const XalanQName& name, const Locator* locator = 0)
     {
         std::string key = utf8Of(name.getLocalPart());
@@ -320,6 +331,10 @@ static void doEval(World& w, const std::string& listExpr, size_t k, const std::s
     {
         MutableNodeRefList cl(XalanMemMgrs::getDefaultXercesMemMgr());
         for (size_t i = 0; i < lst.size(); ++i) cl.addNode(lst[i]);
+        // the caller's current node is NOT the context node: every execute overload must itself make the context node
+        // current (CurrentNodePushAndPop) for the duration of the evaluation, so current() means the same through all six
+        XalanNode* const other = (context == static_cast<XalanNode*>(w.doc)) ? w.all.back() : static_cast<XalanNode*>(w.doc);
+        const XPathExecutionContext::CurrentNodePushAndPop callersCurrent(w.ec, other);
         // generic
         try
         {
@@ -395,7 +410,7 @@ static void doEval(World& w, const std::string& listExpr, size_t k, const std::s
 int main()
 {
     XMLPlatformUtils::Initialize();
-    XPathEvaluator::initialize();
+    XalanTransformer::initialize();      // also installs the XSLT functions (current(), generate-id(), …) in the XPath function table
     int rc = 0;
     {
         XalanSourceTreeInit sourceTreeInit;
@@ -455,6 +470,11 @@ int main()
                     }
                     std::cout << "end" << std::endl;
                 }
+                else if (t[0] == "strip" && w && t.size() == 2)
+                {
+                    w->ec.setStrip(t[1] == "1");
+                    std::cout << "ok" << std::endl;
+                }
                 else if (t[0] == "var" && w && t.size() == 4)
                 {
                     Binding b; b.kind = t[2][0];
@@ -502,7 +522,7 @@ int main()
         }
         delete w;
     }
-    XPathEvaluator::terminate();
+    XalanTransformer::terminate();
     XMLPlatformUtils::Terminate();
     return rc;
 }
